@@ -351,5 +351,16 @@ func c01RunLitBatchesValid(c *Check, pool *NodePool, name string, items []string
 
 var _ = utf8.RuneLen
 
-func c01Statements(c *Check, x *xrunner) {}
+var xCallsStmt = []interface{}{
+	[]interface{}{true, true, 1}, []interface{}{true, false, 2}, []interface{}{false, true, 3}, []interface{}{false, false, 9},
+	[]interface{}{nil, map[string]interface{}{"t": "undef"}, 1},
+	[]interface{}{map[string]interface{}{"t": "U", "n": "a"}, map[string]interface{}{"t": "U", "n": "b"}, map[string]interface{}{"t": "U", "n": "c"}},
+	[]interface{}{2, 3, 5},
+}
+
+func c01Statements(c *Check, x *xrunner) {
+	y := *x
+	y.calls = xCallsStmt
+	y.runSpace(&xspace{segs: []xseg{asiSpace(), stmtSpace(c.Tier)}})
+}
 func c01JSX(c *Check, pool *NodePool)    {}
